@@ -444,6 +444,59 @@ func c01StopPoint(c *Ctx) {
 		}
 		c.Floor("C01.c-entries-follow-next-only", 1)
 	}
+	// what a sync sets up under the per-publisher lock it takes down under that lock: deferred calls run last-in
+	// first-out, so a clean-up deferred BEFORE the deferred Unlock runs after the lock is gone — the next sync of the
+	// publisher, already holding the lock, has its freshly installed hook mapping deleted and sees none of its blocks
+	if h := c15HandleFn(c); h != nil {
+		var defers []*ssa.Defer
+		instrs(h, func(in ssa.Instruction) {
+			if d, ok := in.(*ssa.Defer); ok {
+				defers = append(defers, d)
+			}
+		})
+		writesState := func(d *ssa.Defer) bool {
+			fn := d.Call.StaticCallee()
+			if fn == nil {
+				fn = funcValueTarget(d.Call.Value)
+			}
+			if fn == nil || !samePkgBody(h, fn) {
+				return false
+			}
+			found := false
+			instrsDeep(fn, func(_ *ssa.Function, in ssa.Instruction) {
+				switch v := in.(type) {
+				case *ssa.MapUpdate:
+					found = true
+				case *ssa.Call:
+					if b, ok := v.Call.Value.(*ssa.Builtin); ok && b.Name() == "delete" {
+						found = true
+					}
+				case *ssa.Store:
+					if _, ok := v.Addr.(*ssa.FieldAddr); ok {
+						found = true
+					}
+				}
+			})
+			return found
+		}
+		late := token.NoPos
+		nUnlock := 0
+		for i, d := range defers {
+			if _, isUnlock := Match(Call("sync.Mutex).Unlock", Field("syncMutex", Any())), c.CallX(d)); !isUnlock {
+				continue
+			}
+			nUnlock++
+			for _, e := range defers[:i] {
+				if Precedes(e, d) && writesState(e) {
+					late = e.Pos()
+				}
+			}
+		}
+		if nUnlock > 0 {
+			c.Check(!late.IsValid(), "C01.b-hook-order", c.short(h.String())+" › per-sync state taken down under the lock", h.Pos(), "no state-writing clean-up is deferred before the deferred unlock of the per-publisher mutex", "a clean-up that writes shared state is deferred before the deferred Unlock (at "+c.pos(late)+") and so runs after it: the next sync of the same publisher can install its hook in between and have it deleted — it completes without any of its blocks reaching its hook")
+		}
+	}
+	hookLoopVisitsAll(c, "C01.b-hook-order")
 	c.Floor("C01.c-one-stop-point", 3)
 
 	// the selector builder attaches the stop condition iff a link is given, with that link
